@@ -2,7 +2,7 @@
 (R-SYM); a saved and loaded store carries every persistent field (R-FLOW); file headers agree
 between writer and reader (R-PAIR)."""
 from vlib import fixtures
-from rules import sym, flow, pair, sibling
+from rules import sym, flow, pair, sibling, tagkind
 from vlib.mir import Fn, op_local
 from vlib.run import Broken
 
@@ -12,7 +12,7 @@ DZ = "compression::dict_zip::blob_store::DictZipBlobStore::"
 
 def run(ctx):
     fx = ctx.facts("default")
-    fixtures.run(ctx, ['pair', 'batch', 'delegate', 'serde'])
+    fixtures.run(ctx, ['pair', 'batch', 'delegate', 'serde', 'record'])
     # batch operations do to the store's state what the single-item operations do
     bfiles = sorted({fx.raw(f)['file'] for f in fx.fn_ids() if fx.raw(f)['file'].startswith('src/blob_store/') or fx.raw(f)['file'] == 'src/compression/dict_zip/blob_store.rs'})
     sibling.batch_effects(ctx, fx, bfiles)
@@ -23,6 +23,13 @@ def run(ctx):
     # serde round trip of the store structs restores every field (id counters included)
     flow.serde_fields_restored(ctx, fx, r'BlobStore$')
     ctx.floor('R-FLOW.serde.visitors', 6)
+    # DictZip: the flags kept next to a blob (is_compressed, entropy_algorithm) follow what was done to its bytes
+    dzput = "<compression::dict_zip::blob_store::DictZipBlobStore as blob_store::traits::BlobStore>::put"
+    if not fx.has(dzput):
+        raise Broken("anchor function %s not found" % dzput)
+    tagkind.record_sites(ctx, fx, dzput, "compression::dict_zip::blob_store::CompressedBlob", "compressed_data",
+                         ["is_compressed", "entropy_algorithm"])
+    ctx.floor('R-TAGKIND.record.sites', 2)
     fl = sym.Flow(fx)
     nimpl = 0
     nwrap = 0
